@@ -1,16 +1,16 @@
 (* Wire interface of the micro-step model.  Input as FatVol.Run:
      [params; fat; dirs; upper table; ops]
-   "micro": for the FIRST op o of ops:
+   "micro": for the FIRST op o of ops, with every compaction spelled out record by record (micro_x):
      [outcome of FatVol's step; list of the states the operation goes through (before the first
       store, after each store: length = number of stores + 1); the stores; state of FatVol's step]
      states are printed in FatVol.Run's canonical form [fat; dirs];
      a store is printed as (tag, arguments...):
        (0,c,v) MInfo  (1,c,v) MTbl  (2,c) MZero  (3,c) MZeroTail  (4,id,key,attr,size,cluster) MUpd
        (5,id,key) MDel  (6,id,keep,items) MTail  (7,id) MClean  (8,c) MReg  (9,c,v) MDot
-       (10,c,v) MDotDot  (11,c) MForget
+       (10,c,v) MDotDot  (11,c) MForget  (12,id,items) MView (a view during compaction)
    "targets": the (directory id, alias) keys of the entries the first op names (tkeys) *)
 From Coq Require Import List NArith String Bool.
-From NV Require Import Lib.Val Lib.Res Lib.Wire FatVol.Model FatVol.Run FatCrash.Model.
+From NV Require Import Lib.Val Lib.Res Lib.Wire FatVol.Model FatVol.Run FatCrash.Model FatCrash.Clean.
 From NV Require FatDir.Run.
 Import ListNotations.
 Open Scope string_scope.
@@ -25,6 +25,7 @@ Definition VStep (m : mstep) : val :=
   | MDel id k => VL [VN 5; VN id; VS k]
   | MTail id keep t => VL [VN 6; VN id; VN (N.of_nat keep); VL (List.map VItem t)]
   | MClean id => VL [VN 7; VN id]
+  | MView id l => VL [VN 12; VN id; VL (List.map VItem l)]
   | MReg c => VL [VN 8; VN c]
   | MDot c v => VL [VN 9; VN c; VN v]
   | MDotDot c v => VL [VN 10; VN c; VN v]
@@ -40,7 +41,7 @@ Definition dispatch (cmd : string) (a : val) : val :=
     match ops with
     | o :: _ =>
       let x := step up V s o in
-      let l := micro up V s o in
+      let l := micro_x up V s o in
       VL [VOut (snd x); VL (List.map VVol (states up s l)); VL (List.map VStep l); VVol (fst x)]
     | [] => VErr "no op"
     end
